@@ -1046,6 +1046,11 @@ type zzC04Soft struct {
 	Want    int          `json:"want"`
 	Absent  int          `json:"absent"` // Apply only: the answer for the same address without a ClientID
 	What    string       `json:"what"`
+
+	// Shape: "asfinding" if the answer has the shape the listed finding of
+	// this kind produces (checks/c04.py ALT_KEYS has the same predicates and
+	// decides), "other" otherwise.
+	Shape string `json:"shape"`
 }
 
 // altLookups repeats lookups with other legal spellings of their argument and
@@ -1063,8 +1068,23 @@ func (rn *zzC04Runner) altLookups(c *zzC04Chunk, state int, o *zzC04Obs, want *z
 		if got == w {
 			return
 		}
+		asFinding := false
+		switch alt {
+		case "nettext":
+			asFinding = got == 0 && w > 0
+		case "cidcase":
+			asFinding = got == absent
+		case "mapped":
+			asFinding = got == 0
+		case "mac8colon":
+			asFinding = got > 0
+		}
+		shape := "other"
+		if asFinding {
+			shape = "asfinding"
+		}
 		soft(&zzC04Soft{T: "soft", Alt: alt, U: c.U, Chunk: c.ID, Variant: rn.conc.v, State: state, Call: call, Got: got, Want: w,
-			Absent: absent, What: fmt.Sprintf("%s: got %d, spec %d", call, got, w)})
+			Absent: absent, What: fmt.Sprintf("%s: got %d, spec %d", call, got, w), Shape: shape})
 	}
 	find := func(s string) (idx int) {
 		var p *Persistent
@@ -1246,8 +1266,14 @@ func TestZZVerifC04Replay(t *testing.T) {
 	soft := func(sb *zzC04Soft) {
 		wmu.Lock()
 		defer wmu.Unlock()
-		softN[sb.Alt]++
-		if softN[sb.Alt] <= softCap {
+		// Disagreements of the shape of a listed finding are sampled; any
+		// other one is written out (up to a generous bound).
+		k, bound := sb.Alt+"/"+sb.Shape, softCap
+		if sb.Shape == "other" {
+			bound = 50 * softCap
+		}
+		softN[k]++
+		if softN[k] <= bound {
 			w.put(sb)
 		}
 	}
